@@ -88,7 +88,7 @@ def led__comparison_operators(self: XPathToken, left: XPathToken) -> XPathToken:
 @method('<=')
 @method('>=')
 def evaluate__comparison_operators(self: XPathToken, context: ta.ContextType = None) -> bool:
-    op = OPERATORS_MAP[self.symbol]
+    op = self.collation_operator(OPERATORS_MAP[self.symbol])
     try:
         return any(op(x1, x2) for x1, x2 in self.iter_comparison_data(context))
     except (TypeError, ValueError) as err:
